@@ -1,5 +1,5 @@
 (* Proofs about Model/Backup.v (property C12). *)
-From Coq Require Import List NArith Bool Lia Sorted Permutation.
+From Coq Require Import List NArith Bool Lia Sorted Permutation PeanoNat.
 From Kyro Require Import Model.Backup.
 Import ListNotations.
 Open Scope N_scope.
@@ -741,224 +741,6 @@ Proof.
 Qed.
 
 (* ------------------------------------------------------------------------------------------ *)
-(* chains: full backup followed by incrementals                                                *)
-(* ------------------------------------------------------------------------------------------ *)
-(* Premise about how the engine's directory evolves between two backups: a WAL segment that the
-   incremental does NOT select (id below the parent's recorded maximum, or equal to it with an
-   mtime older than the parent's timestamp) is unchanged since the parent's directory state.
-   (Closed segments are immutable; appending to the active one moves its mtime forward.) *)
-Definition evolves (dp : sdir) (bp : backup) (d : sdir) : Prop :=
-  forall s c mt, sget d (FWal s) = Some (c, mt) ->
-    incr_selected (b_ts bp) (b_max_wal bp) (s, (c, mt)) = false ->
-    exists mt0, sget dp (FWal s) = Some (c, mt0).
-
-(* chain_ok rch bf d m: rch (newest first) is a full backup bf followed by incrementals, each taken by
-   the modelled code from a well-formed directory that evolved from its parent's; d, m are the
-   directory and manifest of the newest one. *)
-Inductive chain_ok : list backup -> backup -> sdir -> manifest -> Prop :=
-| co_full : forall d m b id ts aux,
-    wf_sdir d m -> create_full d id ts aux = Ok b -> chain_ok [b] b d m
-| co_incr : forall rch bf dp mp bp d m b st id ts aux,
-    chain_ok (bp :: rch) bf dp mp -> wf_sdir d m -> evolves dp bp d ->
-    find_b st (b_id bp) = Some bp ->
-    create_incremental st d (b_id bp) id ts aux = Ok b ->
-    chain_ok (b :: bp :: rch) bf d m.
-
-Inductive linked : list backup -> backup -> Prop :=
-| ln_full : forall b, b_kind b = Full -> linked [b] b
-| ln_incr : forall b bp r bf, b_kind b = Incremental -> b_parent b = Some (b_id bp) ->
-    linked (bp :: r) bf -> linked (b :: bp :: r) bf.
-
-Definition covers (t : tdir) (d : sdir) : Prop :=
-  forall s c mt, sget d (FWal s) = Some (c, mt) -> tget t (FWal s) = Some c.
-
-Lemma create_full_inv : forall d m id ts aux b, wf_sdir d m -> create_full d id ts aux = Ok b ->
-  b = mkBackup id None Full ts (view_files d m) true (max_list (m_segs m)) (m_snap m) aux.
-Proof.
-  intros d m id ts aux b WF H. unfold create_full in H. rewrite (create_full_files_wf d m WF) in H.
-  inversion H; reflexivity.
-Qed.
-
-Lemma create_incr_files_wf : forall d m pts pmax files mx sf, wf_sdir d m ->
-  create_incr_files d pts pmax = Ok (files, mx, sf) ->
-  files = (FManifest, CMan m) ::
-          map (fun e => (FWal (fst e), fst (snd e))) (filter (incr_selected pts pmax) (wal_on_disk d)).
-Proof.
-  intros d m pts pmax files mx sf WF H. destruct WF as (ND & [mt EM] & HS & HL & _).
-  unfold create_incr_files in H. rewrite EM in H.
-  destruct (filter (incr_selected pts pmax) (wal_on_disk d)) as [|e r] eqn:ES; [discriminate|].
-  rewrite merge_segs_id in H.
-  - rewrite set_segs_id in H. inversion H; reflexivity.
-  - exact HS.
-  - intros s HI. apply HL. apply in_map_iff in HI; destruct HI as [[s' x] [E HI]]; cbn in E; subst s'.
-    rewrite <- ES in HI. apply filter_In in HI; destruct HI as [HI _].
-    apply wal_on_disk_In in HI. exists x. apply in_sget_nodup; auto.
-Qed.
-
-Lemma chain_linked : forall rch bf d m, chain_ok rch bf d m ->
-  linked rch bf /\ Forall (fun b => b_ok b = true) rch.
-Proof.
-  intros rch bf d m H; induction H as [d m b id ts aux WF HC | rch bf dp mp bp d m b st id ts aux HP IH WF HE HF HC].
-  - rewrite (create_full_inv _ _ _ _ _ _ WF HC). split; [constructor; reflexivity|constructor; auto].
-  - destruct IH as [IL IO]. unfold create_incremental in HC. rewrite HF in HC.
-    destruct (create_incr_files d (b_ts bp) (b_max_wal bp)) as [[[files mx] sf]|e]; [|discriminate].
-    inversion HC; subst b. split; [constructor; auto|constructor; auto].
-Qed.
-
-Lemma extract_chain_snoc : forall t l b, extract_chain t (l ++ [b]) = extract (extract_chain t l) b.
-Proof. intros; unfold extract_chain; rewrite fold_left_app; reflexivity. Qed.
-
-(* the invariant carried along a chain *)
-Lemma chain_invariant : forall rch bf d m, chain_ok rch bf d m ->
-  let t := extract_chain [] (rev rch) in
-  covers t d /\ tget t FManifest = Some (CMan m) /\
-  (forall s, tget t (FSnap s) = tget (b_files bf) (FSnap s)).
-Proof.
-  intros rch bf d m H; induction H as [d m b id ts aux WF HC | rch bf dp mp bp d m b st id ts aux HP IH WF HE HF HC].
-  - rewrite (create_full_inv _ _ _ _ _ _ WF HC). cbn [rev app]. unfold extract_chain; cbn [fold_left].
-    rewrite extract_is_put_all; cbn [b_files]. rewrite put_all_nodup by (cbn [app]; apply view_files_nodup; exact WF).
-    cbn [app]. repeat split.
-    + intros s c mt E; eapply tget_view_wal; eauto.
-    + apply tget_view_manifest; exact WF.
-  - cbn zeta in IH. destruct IH as (IC & IM & IS).
-    unfold create_incremental in HC. rewrite HF in HC.
-    destruct (create_incr_files d (b_ts bp) (b_max_wal bp)) as [[[files mx] sf]|e] eqn:EC; [|discriminate].
-    pose proof (create_incr_files_wf _ _ _ _ _ _ _ WF EC) as EF.
-    inversion HC; subst b; clear HC.
-    cbn zeta. change (rev (mkBackup id (Some (b_id bp)) Incremental ts files true mx sf aux :: bp :: rch))
-      with (rev (bp :: rch) ++ [mkBackup id (Some (b_id bp)) Incremental ts files true mx sf aux]).
-    rewrite extract_chain_snoc, extract_is_put_all; cbn [b_files].
-    set (t := extract_chain [] (rev (bp :: rch))) in *.
-    set (sel := filter (incr_selected (b_ts bp) (b_max_wal bp)) (wal_on_disk d)) in *.
-    destruct WF as (ND & [mtm EM] & HS & HL & HSN).
-    (* every member named FWal s carries the content s has in d *)
-    assert (HMem : forall s c', In (FWal s, c') files -> exists mt', sget d (FWal s) = Some (c', mt') /\
-                                  incr_selected (b_ts bp) (b_max_wal bp) (s, (c', mt')) = true).
-    { intros s c' HI. rewrite EF in HI. destruct HI as [E|HI]; [discriminate|].
-      apply in_map_iff in HI; destruct HI as [[s' [c2 mt2]] [E HI]]; cbn in E; inversion E; subst s' c2.
-      apply filter_In in HI; destruct HI as [HI HSel]. apply wal_on_disk_In in HI.
-      exists mt2; split; [apply in_sget_nodup; auto|exact HSel]. }
-    repeat split.
-    + intros s c mt E.
-      destruct (incr_selected (b_ts bp) (b_max_wal bp) (s, (c, mt))) eqn:ESel.
-      * apply put_all_written.
-        -- rewrite EF; right. apply in_map_iff; exists (s, (c, mt)); split; [reflexivity|].
-           apply filter_In; split; [|exact ESel]. apply wal_on_disk_In. apply sget_in; exact E.
-        -- intros c' HI. destruct (HMem s c' HI) as [mt' [E' _]]. rewrite E in E'; inversion E'; reflexivity.
-      * rewrite put_all_untouched.
-        -- destruct (HE s c mt E ESel) as [mt0 E0]. exact (IC s c mt0 E0).
-        -- intros c' HI. destruct (HMem s c' HI) as [mt' [E' HSel]]. rewrite E in E'; inversion E'; subst c' mt'.
-           rewrite ESel in HSel; discriminate.
-    + apply put_all_written.
-      * rewrite EF; left; reflexivity.
-      * intros c' HI. rewrite EF in HI. destruct HI as [E|HI]; [inversion E; reflexivity|].
-        apply in_map_iff in HI; destruct HI as [x [E _]]; discriminate.
-    + intros s. rewrite put_all_untouched; [apply IS|].
-      intros c' HI. rewrite EF in HI. destruct HI as [E|HI]; [discriminate|].
-      apply in_map_iff in HI; destruct HI as [x [E _]]; discriminate.
-Qed.
-
-(* build_chain finds exactly the chain when every member's metadata is present in the store *)
-Lemma find_b_In : forall st id b, find_b st id = Some b -> In b st /\ b_id b = id.
-Proof.
-  induction st as [|x r IH]; intros id b H; cbn in H; [discriminate|].
-  destruct (b_id x =? id) eqn:E.
-  - inversion H; subst; split; [left; reflexivity|apply N.eqb_eq; exact E].
-  - destruct (IH id b H); split; [right|]; auto.
-Qed.
-
-Lemma linked_last : forall rch bf, linked rch bf -> exists r0, rch = r0 ++ [bf] /\ b_kind bf = Full.
-Proof.
-  intros rch bf H; induction H as [b HK | b bp r bf HK HP HL IH].
-  - exists []; split; auto.
-  - destruct IH as [r0 [E HF]]. exists (b :: r0); split; [cbn; rewrite E; reflexivity|exact HF].
-Qed.
-
-Lemma chain_up_linked : forall st r cur bf acc fuel,
-  linked (cur :: r) bf -> b_kind cur = Incremental ->
-  (forall b, In b (cur :: r) -> find_b st (b_id b) = Some b) ->
-  (length r <= fuel)%nat ->
-  chain_up fuel st cur acc = Ok (rev r ++ acc).
-Proof.
-  intros st r; induction r as [|bp r' IH]; intros cur bf acc fuel HL HK HF HLen.
-  - inversion HL; subst. congruence.
-  - inversion HL as [|? ? ? ? HKc HPc HL']; subst.
-    destruct fuel as [|f]; [cbn in HLen; lia|]. cbn [chain_up]. rewrite HPc.
-    rewrite (HF bp (or_intror (or_introl eq_refl))).
-    unfold is_full. destruct (b_kind bp) eqn:EK; cbn [bkind_eqb].
-    + inversion HL'; subst; [reflexivity|congruence].
-    + rewrite (IH bp bf (bp :: acc) f HL' EK).
-      * cbn [rev]. rewrite <- app_assoc; reflexivity.
-      * intros b HI; apply HF; right; exact HI.
-      * cbn in HLen; lia.
-Qed.
-
-Lemma build_chain_linked : forall st rch bf tip,
-  linked rch bf -> hd_error rch = Some tip ->
-  (forall b, In b rch -> find_b st (b_id b) = Some b) ->
-  NoDup (map b_id rch) ->
-  build_chain st (b_id tip) = Ok (rev rch).
-Proof.
-  intros st rch bf tip HL HH HF ND.
-  destruct rch as [|cur r]; [discriminate|]. cbn in HH; inversion HH; subst cur.
-  unfold build_chain. rewrite (HF tip (or_introl eq_refl)).
-  unfold is_full. destruct (b_kind tip) eqn:EK; cbn [bkind_eqb].
-  - inversion HL; subst; [reflexivity|congruence].
-  - assert (HLen : (length r <= length st)%nat).
-    { assert (HN : NoDup (tip :: r)) by (eapply NoDup_map_inv; exact ND).
-      assert (HI : incl (tip :: r) st).
-      { intros b HB. apply HF in HB. apply find_b_In in HB; tauto. }
-      pose proof (NoDup_incl_length HN HI) as HLe. cbn in HLe; lia. }
-    rewrite (chain_up_linked st r tip bf [tip] (length st) HL EK HF HLen).
-    destruct (linked_last _ _ HL) as [r0 [E HFull]].
-    change (rev r ++ [tip]) with (rev (tip :: r)). rewrite E, rev_app_distr. cbn [rev app].
-    unfold is_full; rewrite HFull; reflexivity.
-Qed.
-
-(* The two recorded classes, by input:
-   (1) the newest manifest names a snapshot that the chain's full archive does not hold with the
-       content it has in the source directory (incrementals never ship snapshots);
-   (2) the metadata of a member of the chain is missing from the store (e.g. pruned away). *)
-Definition snapshot_not_in_chain (bf : backup) (d : sdir) (m : manifest) : Prop :=
-  exists s, m_snap m = Some s /\ tget (b_files bf) (FSnap s) <> option_map fst (sget d (FSnap s)).
-
-Definition ancestor_missing (st : store) (rch : list backup) : Prop :=
-  exists b, In b rch /\ find_b st (b_id b) = None.
-
-Definition KnownC12 (st : store) (rch : list backup) (bf : backup) (d : sdir) (m : manifest) : Prop :=
-  snapshot_not_in_chain bf d m \/ ancestor_missing st rch.
-
-(* the store holds the chain's metadata unaltered, or not at all *)
-Definition store_sub (st : store) (rch : list backup) : Prop :=
-  forall b, In b rch -> find_b st (b_id b) = Some b \/ find_b st (b_id b) = None.
-
-Theorem chain_restore_exact : forall st rch bf tip d m o,
-  chain_ok rch bf d m -> hd_error rch = Some tip ->
-  NoDup (map b_id rch) -> store_sub st rch -> o_dry o = false ->
-  ~ KnownC12 st rch bf d m ->
-  exists t', restore_by_id st [] (b_id tip) o = (None, t') /\
-             recovery_view t' = recovery_view (strip d) /\ restorable t' = true.
-Proof.
-  intros st rch bf tip d m o HC HH ND HSub HD HK.
-  destruct (chain_linked _ _ _ _ HC) as [HL HOk].
-  assert (HF : forall b, In b rch -> find_b st (b_id b) = Some b).
-  { intros b HI. destruct (HSub b HI) as [E|E]; [exact E|].
-    exfalso; apply HK; right; exists b; auto. }
-  exists (extract_chain [] (rev rch)). split.
-  - unfold restore_by_id. rewrite (build_chain_linked st rch bf tip HL HH HF ND).
-    unfold restore_chain.
-    assert (E : forallb b_ok (rev rch) = true).
-    { apply forallb_forall. intros b HI. apply in_rev in HI. rewrite Forall_forall in HOk; auto. }
-    rewrite E; cbn [negb clear_target]. rewrite HD; reflexivity.
-  - destruct (chain_invariant _ _ _ _ HC) as (IC & IM & IS).
-    assert (WF : wf_sdir d m) by (inversion HC; auto).
-    apply recovery_view_matches with (m := m); auto.
-    intros s ES. rewrite IS.
-    destruct (content_eq_dec_opt (tget (b_files bf) (FSnap s)) (option_map fst (sget d (FSnap s)))) as [E|NE]; [exact E|].
-    exfalso; apply HK; left; exists s; auto.
-Qed.
-
-(* ------------------------------------------------------------------------------------------ *)
 (* the boolean premises imply the Prop premises                                                *)
 (* ------------------------------------------------------------------------------------------ *)
 Lemma optN_eqb_eq : forall a b, optN_eqb a b = true -> a = b.
@@ -1024,6 +806,23 @@ Proof.
   - intros s ES. rewrite ES in H6. apply is_some_ex; exact H6.
 Qed.
 
+
+(* ------------------------------------------------------------------------------------------ *)
+(* chains: full backup followed by incrementals                                                *)
+(* ------------------------------------------------------------------------------------------ *)
+(* Premise about how the engine's directory evolves between two backups: a WAL segment that the
+   incremental does NOT select (id below the parent's recorded maximum, or equal to it with an
+   mtime older than the parent's timestamp) is unchanged since the parent's directory state.
+   (Closed segments are immutable; appending to the active one moves its mtime forward.) *)
+Definition evolves (dp : sdir) (bp : backup) (d : sdir) : Prop :=
+  forall s c mt, sget d (FWal s) = Some (c, mt) ->
+    incr_selected (b_ts bp) (b_max_wal bp) (s, (c, mt)) = false ->
+    exists mt0, sget dp (FWal s) = Some (c, mt0).
+
+(* Premise: a snapshot name denotes one content (snapshots are written once under a fresh id). *)
+Definition snaps_agree (sc : N -> content) (d : sdir) : Prop :=
+  forall s c mt, sget d (FSnap s) = Some (c, mt) -> c = sc s.
+
 Lemma evolvesb_ok : forall dp bp d, NoDup (map fst d) ->
   evolvesb dp (b_ts bp) (b_max_wal bp) d = true -> evolves dp bp d.
 Proof.
@@ -1035,6 +834,352 @@ Proof.
   apply content_eqb_eq in H; subst; eexists; reflexivity.
 Qed.
 
+Definition snaps_agreeb (sc : N -> content) (d : sdir) : bool :=
+  forallb (fun e => match fst e with FSnap s => content_eqb (fst (snd e)) (sc s) | _ => true end) d.
+
+Lemma snaps_agreeb_ok : forall sc d, snaps_agreeb sc d = true -> snaps_agree sc d.
+Proof.
+  intros sc d H s c mt E. unfold snaps_agreeb in H. rewrite forallb_forall in H.
+  specialize (H (FSnap s, (c, mt)) (sget_in _ _ _ E)). cbn in H. apply content_eqb_eq; exact H.
+Qed.
+
+(* the store holds these records unaltered, or not at all *)
+Definition store_sub (st : store) (rch : list backup) : Prop :=
+  forall b, In b rch -> find_b st (b_id b) = Some b \/ find_b st (b_id b) = None.
+
+(* chain_ok sc rch d m: rch (newest first) is a full backup followed by incrementals, each taken by the
+   modelled code from a well-formed directory that evolved from its parent's, with a backup directory
+   that held the parent's metadata and held the older ancestors' metadata unaltered or not at all;
+   d, m are the directory and manifest of the newest one. *)
+Inductive chain_ok (sc : N -> content) : list backup -> sdir -> manifest -> Prop :=
+| co_full : forall d m b id ts aux,
+    wf_sdir d m -> snaps_agree sc d -> create_full d id ts aux = Ok b -> chain_ok sc [b] d m
+| co_incr : forall rch dp mp bp d m b st id ts aux,
+    chain_ok sc (bp :: rch) dp mp -> wf_sdir d m -> snaps_agree sc d -> evolves dp bp d ->
+    find_b st (b_id bp) = Some bp -> store_sub st rch ->
+    create_incremental st d (b_id bp) id ts aux = Ok b ->
+    chain_ok sc (b :: bp :: rch) d m.
+
+Inductive linked : list backup -> Prop :=
+| ln_full : forall b, b_kind b = Full -> b_parent b = None -> linked [b]
+| ln_incr : forall b bp r, b_kind b = Incremental -> b_parent b = Some (b_id bp) ->
+    linked (bp :: r) -> linked (b :: bp :: r).
+
+Definition covers (t : tdir) (d : sdir) : Prop :=
+  forall s c mt, sget d (FWal s) = Some (c, mt) -> tget t (FWal s) = Some c.
+
+(* newest snapshot recorded (= shipped) by a member of the chain *)
+Fixpoint carried (rch : list backup) : option N :=
+  match rch with
+  | [] => None
+  | b :: r => match b_snapfile b with Some s => Some s | None => carried r end
+  end.
+
+Lemma create_full_inv : forall d m id ts aux b, wf_sdir d m -> create_full d id ts aux = Ok b ->
+  b = mkBackup id None Full ts (view_files d m) true (max_list (m_segs m)) (m_snap m) aux.
+Proof.
+  intros d m id ts aux b WF H. unfold create_full in H. rewrite (create_full_files_wf d m WF) in H.
+  inversion H; reflexivity.
+Qed.
+
+Definition incr_wals (d : sdir) (pts : N) (pmax : option N) : tdir :=
+  map (fun e => (FWal (fst e), fst (snd e))) (filter (incr_selected pts pmax) (wal_on_disk d)).
+
+Lemma create_incr_files_wf : forall d m pts pmax csnap files mx sf, wf_sdir d m ->
+  create_incr_files d pts pmax csnap = Ok (files, mx, sf) ->
+  (files = (FManifest, CMan m) :: incr_wals d pts pmax /\ sf = None /\
+   (m_snap m = None \/ exists s, m_snap m = Some s /\ csnap = Some s)) \/
+  (exists s c mt, m_snap m = Some s /\ sget d (FSnap s) = Some (c, mt) /\ sf = Some s /\
+                  files = (FSnap s, c) :: (FManifest, CMan m) :: incr_wals d pts pmax).
+Proof.
+  intros d m pts pmax csnap files mx sf WF H. destruct WF as (ND & [mt EM] & HS & HL & _).
+  unfold create_incr_files in H. rewrite EM in H. unfold incr_wals.
+  destruct (filter (incr_selected pts pmax) (wal_on_disk d)) as [|e r] eqn:ES; [discriminate|].
+  rewrite merge_segs_id in H.
+  - rewrite set_segs_id in H.
+    destruct (m_snap m) as [s|] eqn:EMS.
+    + destruct (optN_eqb csnap (Some s)) eqn:EO.
+      * apply optN_eqb_eq in EO. inversion H; subst. left; split; [reflexivity|]. split; [reflexivity|].
+        right; exists s; auto.
+      * destruct (sget d (FSnap s)) as [[c mt']|] eqn:EG; [|discriminate].
+        inversion H; subst. right. exists s, c, mt'. auto.
+    + inversion H; subst. left; auto.
+  - exact HS.
+  - intros s HI. apply HL. apply in_map_iff in HI; destruct HI as [[s' x] [E HI]]; cbn in E; subst s'.
+    rewrite <- ES in HI. apply filter_In in HI; destruct HI as [HI _].
+    apply wal_on_disk_In in HI. exists x. apply in_sget_nodup; auto.
+Qed.
+
+Lemma chain_linked : forall sc rch d m, chain_ok sc rch d m ->
+  linked rch /\ Forall (fun b => b_ok b = true) rch.
+Proof.
+  intros sc rch d m H;
+    induction H as [d m b id ts aux WF HSA HC | rch dp mp bp d m b st id ts aux HP IH WF HSA HE HF HSub HC].
+  - rewrite (create_full_inv _ _ _ _ _ _ WF HC). split; [constructor; reflexivity|constructor; auto].
+  - destruct IH as [IL IO]. unfold create_incremental in HC. rewrite HF in HC.
+    destruct (create_incr_files d (b_ts bp) (b_max_wal bp) _) as [[[files mx] sf]|e]; [|discriminate].
+    inversion HC; subst b. split; [constructor; auto|constructor; auto].
+Qed.
+
+Lemma chain_snapshot_some : forall fuel st s anc, chain_snapshot fuel st (Some s) anc = Some s.
+Proof. intros [|f] st s anc; reflexivity. Qed.
+
+Lemma chain_snapshot_none : forall fuel st, chain_snapshot fuel st None None = None.
+Proof. intros [|f] st; reflexivity. Qed.
+
+(* the walk over the ancestors' metadata can only report a snapshot that the chain really carries *)
+Lemma walk_carried : forall st r x fuel s,
+  linked (x :: r) -> store_sub st r ->
+  chain_snapshot fuel st (b_snapfile x) (b_parent x) = Some s -> carried (x :: r) = Some s.
+Proof.
+  intros st r; induction r as [|y r' IH]; intros x fuel s HL HSub HW; cbn [carried].
+  - destruct (b_snapfile x) as [s0|]; [rewrite chain_snapshot_some in HW; exact HW|].
+    inversion HL as [? ? HP|]; subst. rewrite HP, chain_snapshot_none in HW; discriminate.
+  - destruct (b_snapfile x) as [s0|]; [rewrite chain_snapshot_some in HW; exact HW|].
+    inversion HL as [|? ? ? HK HP HL']; subst. rewrite HP in HW.
+    destruct fuel as [|f]; [discriminate|]. cbn [chain_snapshot] in HW.
+    destruct (HSub y (or_introl eq_refl)) as [E|E]; rewrite E in HW; [|discriminate].
+    apply (IH y f s HL'); [|exact HW].
+    intros b HI; apply HSub; right; exact HI.
+Qed.
+
+Lemma extract_chain_snoc : forall t l b, extract_chain t (l ++ [b]) = extract (extract_chain t l) b.
+Proof. intros; unfold extract_chain; rewrite fold_left_app; reflexivity. Qed.
+
+(* the invariant carried along a chain *)
+Lemma chain_invariant : forall sc rch d m, chain_ok sc rch d m ->
+  let t := extract_chain [] (rev rch) in
+  covers t d /\ tget t FManifest = Some (CMan m) /\
+  (forall s, m_snap m = Some s -> tget t (FSnap s) = Some (sc s)) /\
+  (forall s, carried rch = Some s -> tget t (FSnap s) = Some (sc s)).
+Proof.
+  intros sc rch d m H;
+    induction H as [d m b id ts aux WF HSA HC | rch dp mp bp d m b st id ts aux HP IH WF HSA HE HF HSub HC].
+  - rewrite (create_full_inv _ _ _ _ _ _ WF HC). cbn [rev app]. unfold extract_chain; cbn [fold_left].
+    rewrite extract_is_put_all; cbn [b_files]. rewrite put_all_nodup by (cbn [app]; apply view_files_nodup; exact WF).
+    cbn [app].
+    assert (HS : forall s, m_snap m = Some s -> tget (view_files d m) (FSnap s) = Some (sc s)).
+    { intros s ES. pose proof WF as (_ & _ & _ & _ & HSE). destruct (HSE s ES) as [[c mt] E].
+      rewrite (tget_view_snap d m s c mt WF ES E). rewrite (HSA s c mt E); reflexivity. }
+    repeat split.
+    + intros s c mt E; eapply tget_view_wal; eauto.
+    + apply tget_view_manifest; exact WF.
+    + exact HS.
+    + intros s HCar. cbn [carried b_snapfile] in HCar. apply HS.
+      destruct (m_snap m); [exact HCar|discriminate].
+  - cbn zeta in IH. destruct IH as (IC & IM & IS & ICar).
+    destruct (chain_linked _ _ _ _ HP) as [HLk _].
+    unfold create_incremental in HC. rewrite HF in HC.
+    set (csnap := chain_snapshot (length st) st (b_snapfile bp) (b_parent bp)) in HC.
+    destruct (create_incr_files d (b_ts bp) (b_max_wal bp) csnap) as [[[files mx] sf]|e] eqn:EC; [|discriminate].
+    pose proof (create_incr_files_wf _ _ _ _ _ _ _ _ WF EC) as EF.
+    inversion HC; subst b; clear HC.
+    cbn zeta. change (rev (mkBackup id (Some (b_id bp)) Incremental ts files true mx sf aux :: bp :: rch))
+      with (rev (bp :: rch) ++ [mkBackup id (Some (b_id bp)) Incremental ts files true mx sf aux]).
+    rewrite extract_chain_snoc, extract_is_put_all; cbn [b_files].
+    set (t := extract_chain [] (rev (bp :: rch))) in *.
+    pose proof WF as (ND & [mtm EM] & HS & HL & HSN).
+    (* shape of the archive: optional snapshot, manifest, selected segments *)
+    assert (HShape : exists pre, files = pre ++ (FManifest, CMan m) :: incr_wals d (b_ts bp) (b_max_wal bp) /\
+                                 (forall n c, In (n, c) pre -> exists s, n = FSnap s)).
+    { destruct EF as [(E & _)|(s & c & mt & _ & _ & _ & E)].
+      - exists []; split; [exact E|intros n c []].
+      - exists [(FSnap s, c)]; split; [exact E|]. intros n c0 [E0|[]]; inversion E0; eauto. }
+    destruct HShape as (pre & EFiles & HPre).
+    assert (HWalMem : forall s c', In (FWal s, c') files -> In (FWal s, c') (incr_wals d (b_ts bp) (b_max_wal bp))).
+    { intros s c' HI. rewrite EFiles in HI. apply in_app_or in HI. destruct HI as [HI|[HI|HI]].
+      - destruct (HPre _ _ HI) as [s0 E0]; discriminate.
+      - discriminate.
+      - exact HI. }
+    assert (HMem : forall s c', In (FWal s, c') files -> exists mt', sget d (FWal s) = Some (c', mt') /\
+                                  incr_selected (b_ts bp) (b_max_wal bp) (s, (c', mt')) = true).
+    { intros s c' HI. apply HWalMem in HI. unfold incr_wals in HI.
+      apply in_map_iff in HI; destruct HI as [[s' [c2 mt2]] [E HI]]; cbn in E; inversion E; subst s' c2.
+      apply filter_In in HI; destruct HI as [HI HSel]. apply wal_on_disk_In in HI.
+      exists mt2; split; [apply in_sget_nodup; auto|exact HSel]. }
+    assert (HSnapMem : forall s c', In (FSnap s, c') files -> In (FSnap s, c') pre).
+    { intros s c' HI. rewrite EFiles in HI. apply in_app_or in HI. destruct HI as [HI|[HI|HI]]; [exact HI|discriminate|].
+      unfold incr_wals in HI. apply in_map_iff in HI; destruct HI as [x [E _]]; discriminate. }
+    assert (HCov : covers (put_all t files) d).
+    { intros s c mt E.
+      destruct (incr_selected (b_ts bp) (b_max_wal bp) (s, (c, mt))) eqn:ESel.
+      * apply put_all_written.
+        -- rewrite EFiles; apply in_or_app; right; right. unfold incr_wals.
+           apply in_map_iff; exists (s, (c, mt)); split; [reflexivity|].
+           apply filter_In; split; [|exact ESel]. apply wal_on_disk_In. apply sget_in; exact E.
+        -- intros c' HI. destruct (HMem s c' HI) as [mt' [E' _]]. rewrite E in E'; inversion E'; reflexivity.
+      * rewrite put_all_untouched.
+        -- destruct (HE s c mt E ESel) as [mt0 E0]. exact (IC s c mt0 E0).
+        -- intros c' HI. destruct (HMem s c' HI) as [mt' [E' HSel]]. rewrite E in E'; inversion E'; subst c' mt'.
+           rewrite ESel in HSel; discriminate. }
+    assert (HMan : tget (put_all t files) FManifest = Some (CMan m)).
+    { apply put_all_written.
+      * rewrite EFiles; apply in_or_app; right; left; reflexivity.
+      * intros c' HI. rewrite EFiles in HI. apply in_app_or in HI. destruct HI as [HI|[HI|HI]].
+        -- destruct (HPre _ _ HI) as [s0 E0]; discriminate.
+        -- inversion HI; reflexivity.
+        -- unfold incr_wals in HI. apply in_map_iff in HI; destruct HI as [x [E _]]; discriminate. }
+    split; [exact HCov|]. split; [exact HMan|].
+    destruct EF as [(E & ESf & HNo)|(s0 & c0 & mt0 & ES0 & EG0 & ESf & E)].
+    + (* nothing shipped: no snapshot member at all *)
+      assert (HNoSnap : forall s c', ~ In (FSnap s, c') files).
+      { intros s c' HI. rewrite E in HI. destruct HI as [HI|HI]; [discriminate|].
+        unfold incr_wals in HI. apply in_map_iff in HI; destruct HI as [x [E0 _]]; discriminate. }
+      split.
+      * intros s ES. rewrite put_all_untouched by (apply HNoSnap).
+        destruct HNo as [EN|(s1 & ES1 & ECs)]; [congruence|].
+        rewrite ES in ES1; inversion ES1; subst s1.
+        apply ICar. apply (walk_carried st rch bp (length st) s HLk HSub). exact ECs.
+      * intros s HCar. cbn [carried b_snapfile] in HCar. rewrite ESf in HCar.
+        rewrite put_all_untouched by (apply HNoSnap). apply ICar. exact HCar.
+    + (* the snapshot named by the manifest is shipped *)
+      assert (HShip : tget (put_all t files) (FSnap s0) = Some (sc s0)).
+      { rewrite <- (HSA s0 c0 mt0 EG0). apply put_all_written.
+        - rewrite E; left; reflexivity.
+        - intros c' HI. rewrite E in HI. destruct HI as [HI|[HI|HI]]; [inversion HI; reflexivity|discriminate|].
+          unfold incr_wals in HI. apply in_map_iff in HI; destruct HI as [x [E0 _]]; discriminate. }
+      split.
+      * intros s ES. rewrite ES0 in ES; inversion ES; subst s. exact HShip.
+      * intros s HCar. cbn [carried b_snapfile] in HCar. rewrite ESf in HCar. inversion HCar; subst s. exact HShip.
+Qed.
+
+(* The chain up to any backup contains the snapshot that backup's manifest names, with the content it
+   has in the source directory (impossible before /repo 0a20737: see old_incremental_after_snapshot). *)
+Lemma put_all_source : forall files t n c, tget (put_all t files) n = Some c -> tget t n = Some c \/ In (n, c) files.
+Proof.
+  induction files as [|[k v] r IH]; intros t n c H; [left; exact H|].
+  unfold put_all in *; cbn in H. apply IH in H. destruct H as [H|H]; [|right; right; exact H].
+  destruct (fname_eq_dec k n) as [E|NE].
+  - subst. rewrite tget_tput_same in H. inversion H; subst. right; left; reflexivity.
+  - rewrite tget_tput_other in H by exact NE. left; exact H.
+Qed.
+
+Lemma extract_chain_source : forall l t n c, tget (extract_chain t l) n = Some c ->
+  tget t n = Some c \/ exists b, In b l /\ In (n, c) (b_files b).
+Proof.
+  induction l as [|b r IH]; intros t n c H; [left; exact H|].
+  unfold extract_chain in *; cbn [fold_left] in H. apply IH in H. destruct H as [H|[b' [HI HM]]].
+  - rewrite extract_is_put_all in H. apply put_all_source in H. destruct H as [H|H]; [left; exact H|].
+    right; exists b; split; [left; reflexivity|exact H].
+  - right; exists b'; split; [right; exact HI|exact HM].
+Qed.
+
+Theorem chain_contains_manifest_snapshot : forall sc rch d m s,
+  chain_ok sc rch d m -> m_snap m = Some s ->
+  tget (extract_chain [] (rev rch)) (FSnap s) = option_map fst (sget d (FSnap s)) /\
+  (exists c mt, sget d (FSnap s) = Some (c, mt) /\ exists b, In b rch /\ In (FSnap s, c) (b_files b)).
+Proof.
+  intros sc rch d m s HC ES.
+  destruct (chain_invariant _ _ _ _ HC) as (_ & _ & IS & _).
+  assert (WF : wf_sdir d m) by (inversion HC; auto).
+  assert (HSA : snaps_agree sc d) by (inversion HC; auto).
+  pose proof WF as (_ & _ & _ & _ & HSE). destruct (HSE s ES) as [[c mt] E].
+  pose proof (IS s ES) as HT. rewrite <- (HSA s c mt E) in HT.
+  split; [rewrite E; exact HT|].
+  exists c, mt; split; [exact E|].
+  apply extract_chain_source in HT. destruct HT as [HT|[b [HI HM]]]; [discriminate|].
+  exists b; split; [apply in_rev; exact HI|exact HM].
+Qed.
+
+(* build_chain finds exactly the chain when every member's metadata is present in the store *)
+Lemma find_b_In : forall st id b, find_b st id = Some b -> In b st /\ b_id b = id.
+Proof.
+  induction st as [|x r IH]; intros id b H; cbn in H; [discriminate|].
+  destruct (b_id x =? id) eqn:E.
+  - inversion H; subst; split; [left; reflexivity|apply N.eqb_eq; exact E].
+  - destruct (IH id b H); split; [right|]; auto.
+Qed.
+
+Lemma linked_last : forall rch, linked rch -> exists r0 bf, rch = r0 ++ [bf] /\ b_kind bf = Full.
+Proof.
+  intros rch H; induction H as [b HK HP | b bp r HK HP HL IH].
+  - exists [], b; split; auto.
+  - destruct IH as [r0 [bf [E HF]]]. exists (b :: r0), bf; split; [cbn; rewrite E; reflexivity|exact HF].
+Qed.
+
+Lemma chain_up_linked : forall st r cur acc fuel,
+  linked (cur :: r) -> b_kind cur = Incremental ->
+  (forall b, In b (cur :: r) -> find_b st (b_id b) = Some b) ->
+  (length r <= fuel)%nat ->
+  chain_up fuel st cur acc = Ok (rev r ++ acc).
+Proof.
+  intros st r; induction r as [|bp r' IH]; intros cur acc fuel HL HK HF HLen.
+  - inversion HL; subst. congruence.
+  - inversion HL as [|? ? ? HKc HPc HL']; subst.
+    destruct fuel as [|f]; [cbn in HLen; lia|]. cbn [chain_up]. rewrite HPc.
+    rewrite (HF bp (or_intror (or_introl eq_refl))).
+    unfold is_full. destruct (b_kind bp) eqn:EK; cbn [bkind_eqb].
+    + inversion HL'; subst; [reflexivity|congruence].
+    + rewrite (IH bp (bp :: acc) f HL' EK).
+      * cbn [rev]. rewrite <- app_assoc; reflexivity.
+      * intros b HI; apply HF; right; exact HI.
+      * cbn in HLen; lia.
+Qed.
+
+Lemma build_chain_linked : forall st rch tip,
+  linked rch -> hd_error rch = Some tip ->
+  (forall b, In b rch -> find_b st (b_id b) = Some b) ->
+  NoDup (map b_id rch) ->
+  build_chain st (b_id tip) = Ok (rev rch).
+Proof.
+  intros st rch tip HL HH HF ND.
+  destruct rch as [|cur r]; [discriminate|]. cbn in HH; inversion HH; subst cur.
+  unfold build_chain. rewrite (HF tip (or_introl eq_refl)).
+  unfold is_full. destruct (b_kind tip) eqn:EK; cbn [bkind_eqb].
+  - inversion HL; subst; [reflexivity|congruence].
+  - assert (HLen : (length r <= length st)%nat).
+    { assert (HN : NoDup (tip :: r)) by (eapply NoDup_map_inv; exact ND).
+      assert (HI : incl (tip :: r) st).
+      { intros b HB. apply HF in HB. apply find_b_In in HB; tauto. }
+      pose proof (NoDup_incl_length HN HI) as HLe. cbn in HLe; lia. }
+    rewrite (chain_up_linked st r tip [tip] (length st) HL EK HF HLen).
+    destruct (linked_last _ HL) as [r0 [bf [E HFull]]].
+    change (rev r ++ [tip]) with (rev (tip :: r)). rewrite E, rev_app_distr. cbn [rev app].
+    unfold is_full; rewrite HFull; reflexivity.
+Qed.
+
+(* The only class left: the metadata of a member of the chain is missing from the store the restore
+   runs on (outside interference; prune can no longer cause it, see prune_keeps_parents). *)
+Definition ancestor_missing (st : store) (rch : list backup) : Prop :=
+  exists b, In b rch /\ find_b st (b_id b) = None.
+
+Definition KnownC12 (st : store) (rch : list backup) : Prop := ancestor_missing st rch.
+
+Theorem chain_restore_exact_present : forall sc st rch tip d m o,
+  chain_ok sc rch d m -> hd_error rch = Some tip -> NoDup (map b_id rch) ->
+  (forall b, In b rch -> find_b st (b_id b) = Some b) -> o_dry o = false ->
+  exists t', restore_by_id st [] (b_id tip) o = (None, t') /\
+             recovery_view t' = recovery_view (strip d) /\ restorable t' = true.
+Proof.
+  intros sc st rch tip d m o HC HH ND HF HD.
+  destruct (chain_linked _ _ _ _ HC) as [HL HOk].
+  exists (extract_chain [] (rev rch)). split.
+  - unfold restore_by_id. rewrite (build_chain_linked st rch tip HL HH HF ND).
+    unfold restore_chain.
+    assert (E : forallb b_ok (rev rch) = true).
+    { apply forallb_forall. intros b HI. apply in_rev in HI. rewrite Forall_forall in HOk; auto. }
+    rewrite E; cbn [negb clear_target]. rewrite HD; reflexivity.
+  - destruct (chain_invariant _ _ _ _ HC) as (IC & IM & IS & _).
+    assert (WF : wf_sdir d m) by (inversion HC; auto).
+    assert (HSA : snaps_agree sc d) by (inversion HC; auto).
+    apply recovery_view_matches with (m := m); auto.
+    intros s ES. rewrite (IS s ES).
+    pose proof WF as (_ & _ & _ & _ & HSE). destruct (HSE s ES) as [[c mt] E].
+    rewrite E; cbn. rewrite (HSA s c mt E); reflexivity.
+Qed.
+
+Theorem chain_restore_exact : forall sc st rch tip d m o,
+  chain_ok sc rch d m -> hd_error rch = Some tip ->
+  NoDup (map b_id rch) -> store_sub st rch -> o_dry o = false ->
+  ~ KnownC12 st rch ->
+  exists t', restore_by_id st [] (b_id tip) o = (None, t') /\
+             recovery_view t' = recovery_view (strip d) /\ restorable t' = true.
+Proof.
+  intros sc st rch tip d m o HC HH ND HSub HD HK.
+  eapply chain_restore_exact_present; eauto.
+  intros b HI. destruct (HSub b HI) as [E|E]; [exact E|].
+  exfalso; apply HK; exists b; auto.
+Qed.
 (* pruning a store never alters metadata: a chain member is afterwards either intact or absent *)
 Lemma find_b_filter_none : forall (q : backup -> bool) st id,
   (forall y, In y st -> b_id y <> id) -> find_b (filter q st) id = None.
@@ -1059,31 +1204,272 @@ Proof.
   - destruct (q x); cbn; [rewrite E|]; apply IH; auto.
 Qed.
 
-Lemma prune_store_sub : forall now p st rch, NoDup (map b_id st) ->
-  (forall b, In b rch -> find_b st (b_id b) = Some b) -> store_sub (prune_store now p st) rch.
+(* ------------------------------------------------------------------------------------------ *)
+(* prune: the keep set is closed under parent links (since /repo b41f57f)                       *)
+(* ------------------------------------------------------------------------------------------ *)
+Lemma NoDup_app_snoc : forall {A} (l : list A) x, NoDup l -> ~ In x l -> NoDup (l ++ [x]).
 Proof.
-  intros now p st rch ND HF b HI. unfold prune_store.
-  rewrite (find_b_filter _ st (b_id b) b ND (HF b HI)).
-  destruct (negb _); auto.
+  induction l as [|y r IH]; intros x ND HN; cbn; [constructor; auto; constructor|].
+  inversion ND as [|? ? NI ND']; subst. constructor.
+  - intro HI. apply in_app_or in HI. destruct HI as [HI|[E|[]]]; [exact (NI HI)|]. subst; apply HN; left; reflexivity.
+  - apply IH; auto. intro HI; apply HN; right; exact HI.
 Qed.
 
-(* After ANY prune of a store holding a chain, restoring a retained member of the chain is exact
-   unless one of the two recorded classes applies (prune deleted an ancestor / snapshot not shipped). *)
-Corollary chain_restore_exact_after_prune : forall now p st rch bf tip d m o,
-  chain_ok rch bf d m -> hd_error rch = Some tip -> NoDup (map b_id rch) -> NoDup (map b_id st) ->
+Section KeepClosure.
+Variables (now : N) (p : policy).
+
+Definition retained_in (keep : list N) (b : backup) : bool := memN (b_id b) keep || young now p b.
+
+Lemma keep_step_cases : forall keep b,
+  keep_step now p keep b = keep \/
+  exists pid, b_parent b = Some pid /\ retained_in keep b = true /\ ~ In pid keep /\ keep_step now p keep b = keep ++ [pid].
+Proof.
+  intros keep b; unfold keep_step. fold (retained_in keep b).
+  destruct (retained_in keep b) eqn:ER; [|left; reflexivity].
+  destruct (b_parent b) as [pid|]; [|left; reflexivity].
+  destruct (memN pid keep) eqn:EM; [left; reflexivity|].
+  right; exists pid; repeat split; auto. intro HI; apply memN_In in HI; congruence.
+Qed.
+
+Lemma keep_step_len : forall keep b, (length keep <= length (keep_step now p keep b))%nat.
+Proof.
+  intros keep b; destruct (keep_step_cases keep b) as [E|(pid & _ & _ & _ & E)]; rewrite E; [lia|].
+  rewrite app_length; cbn; lia.
+Qed.
+
+Lemma keep_pass_len : forall l keep, (length keep <= length (keep_pass now p l keep))%nat.
+Proof.
+  induction l as [|b r IH]; intros keep; cbn; [lia|].
+  unfold keep_pass in *; cbn. specialize (IH (keep_step now p keep b)). pose proof (keep_step_len keep b). lia.
+Qed.
+
+Lemma keep_pass_incl : forall l keep, incl keep (keep_pass now p l keep).
+Proof.
+  induction l as [|b r IH]; intros keep x HI; cbn; [exact HI|].
+  unfold keep_pass in *; cbn. apply IH.
+  destruct (keep_step_cases keep b) as [E|(pid & _ & _ & _ & E)]; rewrite E; [exact HI|].
+  apply in_or_app; left; exact HI.
+Qed.
+
+(* a pass that adds nothing certifies closure *)
+Lemma keep_pass_stable : forall l keep,
+  length (keep_pass now p l keep) = length keep ->
+  forall b pid, In b l -> retained_in keep b = true -> b_parent b = Some pid -> In pid keep.
+Proof.
+  induction l as [|b0 r IH]; intros keep HLen b pid HI HR HP; [contradiction|].
+  unfold keep_pass in *; cbn [fold_left] in HLen.
+  pose proof (keep_pass_len r (keep_step now p keep b0)) as H1. unfold keep_pass in H1.
+  pose proof (keep_step_len keep b0) as H2.
+  assert (ES : keep_step now p keep b0 = keep).
+  { destruct (keep_step_cases keep b0) as [E|(q & _ & _ & _ & E)]; [exact E|].
+    rewrite E, app_length in *; cbn in *; lia. }
+  rewrite ES in HLen.
+  destruct HI as [E|HI].
+  - subst b0. destruct (keep_step_cases keep b) as [_|(q & HQ & _ & _ & E)].
+    + unfold keep_step in ES. fold (retained_in keep b) in ES. rewrite HR, HP in ES.
+      destruct (memN pid keep) eqn:EM; [apply memN_In; exact EM|].
+      exfalso. assert (HL : length (keep ++ [pid]) = length keep) by (rewrite ES; reflexivity).
+      rewrite app_length in HL; cbn in HL; lia.
+    + rewrite ES in E. exfalso. assert (HL : length keep = length (keep ++ [q])) by (rewrite <- E; reflexivity).
+      rewrite app_length in HL; cbn in HL; lia.
+  - apply (IH keep HLen b pid HI HR HP).
+Qed.
+
+Definition universe (l : list backup) : list N :=
+  map b_id l ++ flat_map (fun b => match b_parent b with Some q => [q] | None => [] end) l.
+
+Lemma universe_len : forall l, (length (universe l) <= length l + length l)%nat.
+Proof.
+  intros l; unfold universe; rewrite app_length, map_length.
+  assert (length (flat_map (fun b => match b_parent b with Some q => [q] | None => [] end) l) <= length l)%nat.
+  { induction l as [|b r IH]; cbn; [lia|]. rewrite app_length. destruct (b_parent b); cbn; lia. }
+  lia.
+Qed.
+
+Lemma keep_pass_inv : forall l0 l keep, incl l l0 -> NoDup keep -> incl keep (universe l0) ->
+  NoDup (keep_pass now p l keep) /\ incl (keep_pass now p l keep) (universe l0).
+Proof.
+  intros l0; induction l as [|b r IH]; intros keep HL ND HU; cbn; [split; auto|].
+  unfold keep_pass in *; cbn [fold_left]. apply IH.
+  - intros x HX; apply HL; right; exact HX.
+  - destruct (keep_step_cases keep b) as [E|(q & _ & _ & HN & E)]; rewrite E; [exact ND|].
+    apply NoDup_app_snoc; auto.
+  - destruct (keep_step_cases keep b) as [E|(q & HQ & _ & _ & E)]; rewrite E; [exact HU|].
+    intros x HX. apply in_app_or in HX. destruct HX as [HX|[HX|[]]]; [apply HU; exact HX|]. subst x.
+    unfold universe; apply in_or_app; right. apply in_flat_map. exists b; split; [apply HL; left; reflexivity|].
+    rewrite HQ; left; reflexivity.
+Qed.
+
+Definition closed (l : list backup) (keep : list N) : Prop :=
+  forall b pid, In b l -> retained_in keep b = true -> b_parent b = Some pid -> In pid keep.
+
+Lemma keep_close_closed : forall l fuel keep, NoDup keep -> incl keep (universe l) ->
+  (length (universe l) - length keep < fuel)%nat ->
+  closed l (keep_close fuel now p l keep) /\ incl keep (keep_close fuel now p l keep).
+Proof.
+  intros l; induction fuel as [|f IH]; intros keep ND HU HF; [lia|].
+  cbn [keep_close]. destruct (Nat.eqb (length (keep_pass now p l keep)) (length keep)) eqn:EL.
+  - apply Nat.eqb_eq in EL. split; [|apply incl_refl].
+    intros b pid HI HR HP. eapply keep_pass_stable; eauto.
+  - apply Nat.eqb_neq in EL.
+    destruct (keep_pass_inv l l keep (incl_refl _) ND HU) as [ND' HU'].
+    pose proof (keep_pass_len l keep) as HLen.
+    pose proof (NoDup_incl_length ND' HU') as HB.
+    destruct (IH (keep_pass now p l keep) ND' HU') as [HC HI]; [lia|].
+    split; [exact HC|]. intros x HX. apply HI. apply keep_pass_incl; exact HX.
+Qed.
+
+Lemma keep_set_closed : forall l, NoDup (map b_id l) -> closed l (keep_set now p l).
+Proof.
+  intros l ND. unfold keep_set.
+  apply keep_close_closed.
+  - apply NoDup_map_filter; exact ND.
+  - intros x HX. unfold universe; apply in_or_app; left.
+    apply in_map_iff in HX; destruct HX as [b [E HB]]. apply filter_In in HB.
+    apply in_map_iff; exists b; tauto.
+  - pose proof (universe_len l). lia.
+Qed.
+
+End KeepClosure.
+
+Lemma ins_desc_In : forall x y l, In y (ins_desc x l) <-> y = x \/ In y l.
+Proof.
+  induction l as [|z r IH]; cbn; [intuition|].
+  destruct (b_ts z <=? b_ts x); cbn; [intuition|]. rewrite IH; intuition.
+Qed.
+
+Lemma list_backups_In : forall st y, In y (list_backups st) <-> In y st.
+Proof.
+  induction st as [|x r IH]; intros y; cbn; [tauto|].
+  unfold list_backups in *; cbn. rewrite ins_desc_In, IH. intuition.
+Qed.
+
+Lemma ins_desc_ids : forall x l, Permutation (map b_id (ins_desc x l)) (b_id x :: map b_id l).
+Proof.
+  induction l as [|z r IH]; cbn; [apply Permutation_refl|].
+  destruct (b_ts z <=? b_ts x); cbn; [apply Permutation_refl|].
+  eapply Permutation_trans; [apply perm_skip; exact IH|apply perm_swap].
+Qed.
+
+Lemma list_backups_ids : forall st, Permutation (map b_id (list_backups st)) (map b_id st).
+Proof.
+  induction st as [|x r IH]; cbn; [apply Permutation_refl|].
+  unfold list_backups in *; cbn. eapply Permutation_trans; [apply ins_desc_ids|apply perm_skip; exact IH].
+Qed.
+
+Lemma memN_false : forall x l, memN x l = false <-> ~ In x l.
+Proof.
+  intros x l; split; intro H.
+  - intro HI; apply memN_In in HI; congruence.
+  - destruct (memN x l) eqn:E; auto. apply memN_In in E; contradiction.
+Qed.
+
+Lemma same_id_same_backup : forall st x y, NoDup (map b_id st) -> In x st -> In y st -> b_id x = b_id y -> x = y.
+Proof.
+  induction st as [|z r IH]; intros x y ND HX HY E; [contradiction|].
+  cbn in ND; inversion ND as [|? ? NI ND']; subst.
+  destruct HX as [EX|HX], HY as [EY|HY]; subst; auto.
+  - exfalso; apply NI. rewrite E. apply in_map; exact HY.
+  - exfalso; apply NI. rewrite <- E. apply in_map; exact HX.
+Qed.
+
+(* retained <-> the prune condition is false *)
+Lemma prune_store_In : forall now p st b, NoDup (map b_id st) ->
+  (In b (prune_store now p st) <-> In b st /\ prune_deletes now p (list_backups st) b = false).
+Proof.
+  intros now p st b ND; unfold prune_store. rewrite filter_In. split; intros [HI H]; split; auto.
+  - apply negb_true_iff, memN_false in H.
+    destruct (prune_deletes now p (list_backups st) b) eqn:E; auto.
+    exfalso; apply H. unfold prune_deleted. apply in_map_iff; exists b; split; auto.
+    apply filter_In; split; [apply list_backups_In; exact HI|exact E].
+  - apply negb_true_iff, memN_false. intro HD. unfold prune_deleted in HD.
+    apply in_map_iff in HD; destruct HD as [z [EZ HZ]]. apply filter_In in HZ; destruct HZ as [HZI HZ].
+    apply (proj1 (list_backups_In st z)) in HZI.
+    rewrite (same_id_same_backup st z b ND HZI HI EZ) in HZ. congruence.
+Qed.
+
+(* C12: pruning never removes a backup that a retained backup depends on. *)
+Theorem prune_keeps_parents : forall now p st b pid y,
+  NoDup (map b_id st) -> In b (prune_store now p st) -> b_parent b = Some pid ->
+  In y st -> b_id y = pid -> In y (prune_store now p st).
+Proof.
+  intros now p st b pid y ND HB HP HY EY.
+  apply prune_store_In in HB; [|exact ND]. destruct HB as [HBI HBD]. apply prune_store_In; [exact ND|]. split; [exact HY|].
+  assert (NDL : NoDup (map b_id (list_backups st))).
+  { eapply Permutation_NoDup; [apply Permutation_sym, list_backups_ids|exact ND]. }
+  pose proof (keep_set_closed now p (list_backups st) NDL) as HC.
+  assert (HR : retained_in now p (keep_set now p (list_backups st)) b = true).
+  { unfold prune_deletes in HBD. unfold retained_in.
+    destruct (memN (b_id b) (keep_set now p (list_backups st))); cbn in *; [reflexivity|].
+    destruct (young now p b); cbn in *; [reflexivity|discriminate]. }
+  pose proof (HC b pid (proj2 (list_backups_In st b) HBI) HR HP) as HK.
+  unfold prune_deletes. rewrite EY. apply memN_In in HK. rewrite HK; reflexivity.
+Qed.
+
+(* hence a retained backup keeps its whole chain *)
+Lemma prune_keeps_chain : forall now p st rch,
+  NoDup (map b_id st) -> linked rch -> (forall b, In b rch -> find_b st (b_id b) = Some b) ->
+  forall tip, hd_error rch = Some tip -> In tip (prune_store now p st) ->
+  forall b, In b rch -> find_b (prune_store now p st) (b_id b) = Some b.
+Proof.
+  intros now p st rch ND HL; induction HL as [x HK HP | x bp r HK HP HL IH]; intros HF tip HH HT b HI.
+  - cbn in HH; inversion HH; subst tip. destruct HI as [E|[]]; subst b.
+    unfold prune_store in *. rewrite (find_b_filter _ st (b_id x) x ND (HF x (or_introl eq_refl))).
+    apply filter_In in HT; destruct HT as [_ HT]; rewrite HT; reflexivity.
+  - cbn in HH; inversion HH; subst tip.
+    assert (HBP : In bp (prune_store now p st)).
+    { apply (prune_keeps_parents now p st x (b_id bp) bp ND HT HP); [|reflexivity].
+      apply (find_b_In st (b_id bp) bp). apply HF; right; left; reflexivity. }
+    destruct HI as [E|HI].
+    + subst b. unfold prune_store in *. rewrite (find_b_filter _ st (b_id x) x ND (HF x (or_introl eq_refl))).
+      apply filter_In in HT; destruct HT as [_ HT]; rewrite HT; reflexivity.
+    + apply (IH (fun b0 H0 => HF b0 (or_intror H0)) bp eq_refl HBP b HI).
+Qed.
+
+(* After ANY prune of a store holding a chain, every retained member of the chain restores exactly. *)
+Theorem chain_restore_exact_after_prune : forall sc now p st rch tip d m o,
+  chain_ok sc rch d m -> hd_error rch = Some tip -> NoDup (map b_id rch) -> NoDup (map b_id st) ->
   (forall b, In b rch -> find_b st (b_id b) = Some b) -> o_dry o = false ->
-  ~ KnownC12 (prune_store now p st) rch bf d m ->
+  In tip (prune_store now p st) ->
   exists t', restore_by_id (prune_store now p st) [] (b_id tip) o = (None, t') /\
              recovery_view t' = recovery_view (strip d) /\ restorable t' = true.
 Proof.
-  intros; eapply chain_restore_exact; eauto. apply prune_store_sub; auto.
+  intros sc now p st rch tip d m o HC HH NDR NDS HF HD HT.
+  eapply chain_restore_exact_present; eauto.
+  destruct (chain_linked _ _ _ _ HC) as [HL _].
+  eapply prune_keeps_chain; eauto.
 Qed.
 
 (* ------------------------------------------------------------------------------------------ *)
-(* witnesses                                                                                   *)
+(* examples                                                                                    *)
 (* ------------------------------------------------------------------------------------------ *)
 Definition opts_plain := mkOpts false false false.
 Definition default_policy := mkPolicy 24 7 4 12 0.
+
+(* ---- the two defects repaired in /repo (0a20737, b41f57f), kept as witnesses on local copies of the
+        OLD functions; the same inputs are then run through the current model. *)
+Definition create_incr_files_old (d : sdir) (pts : N) (pmax : option N) : res created :=
+  match sget d FManifest with
+  | Some (CBlob _, _) => Err EBadManifest
+  | ml =>
+      let sel := filter (incr_selected pts pmax) (wal_on_disk d) in
+      match sel with
+      | [] => Err ENoNewWal
+      | _ =>
+          match ml with
+          | Some (CMan m, _) =>
+              let segs := merge_segs (m_segs m) (map fst sel) in
+              Ok ((FManifest, CMan (set_segs m segs)) :: map (fun e => (FWal (fst e), fst (snd e))) sel,
+                  max_list (map fst sel), None)
+          | _ => Err ENoManifest
+          end
+      end
+  end.
+
+Definition prune_store_old (now : N) (p : policy) (st : store) : store :=
+  let listing := list_backups st in
+  let del := map b_id (filter (fun b => negb (kept now p listing b) && negb (young now p b)) listing) in
+  filter (fun b => negb (memN (b_id b) del)) st.
 
 (* directory when the full backup is taken: no snapshot yet, one segment *)
 Definition w_d0 : sdir :=
@@ -1092,125 +1478,137 @@ Definition w_d0 : sdir :=
 Definition w_m1 := mkMan (Some 70) (Some 3) [10] 1.
 Definition w_d1 : sdir :=
   [(FManifest, (CMan w_m1, 70)); (FSnap 70, (CBlob 200, 70)); (FWal 10, (CBlob 101, 65))].
+Definition w_sc (s : N) : content := CBlob 200.
 
 Definition w_b1 := mkBackup 1 None Full 60 [(FManifest, CMan (mkMan None None [10] 1)); (FWal 10, CBlob 100)] true (Some 10) None 0.
-Definition w_b2 := mkBackup 2 (Some 1) Incremental 80 [(FManifest, CMan w_m1); (FWal 10, CBlob 101)] true (Some 10) None 0.
+Definition w_b2_old := mkBackup 2 (Some 1) Incremental 80 [(FManifest, CMan w_m1); (FWal 10, CBlob 101)] true (Some 10) None 0.
+Definition w_b2 := mkBackup 2 (Some 1) Incremental 80
+  [(FSnap 70, CBlob 200); (FManifest, CMan w_m1); (FWal 10, CBlob 101)] true (Some 10) (Some 70) 0.
 
-Lemma w_chain_ok : chain_ok [w_b2; w_b1] w_b1 w_d1 w_m1.
+(* OLD behaviour: the incremental after a snapshot shipped no snapshot; the restore of the verified
+   chain succeeded and was not recoverable. *)
+Example old_incremental_after_snapshot :
+  create_full w_d0 1 60 0 = Ok w_b1 /\
+  create_incr_files_old w_d1 60 (Some 10) = Ok (b_files w_b2_old, Some 10, None) /\
+  exists t', restore_by_id [w_b1; w_b2_old] [] 2 opts_plain = (None, t') /\
+             restorable t' = false /\ recovery_view t' <> recovery_view (strip w_d1).
 Proof.
-  eapply (co_incr [] w_b1 w_d0 (mkMan None None [10] 1) w_b1 w_d1 w_m1 w_b2 [w_b1] 2 80 0).
-  - eapply (co_full w_d0 _ w_b1 1 60 0); [apply wf_sdirb_ok; vm_compute; reflexivity|vm_compute; reflexivity].
-  - apply wf_sdirb_ok; vm_compute; reflexivity.
-  - apply evolvesb_ok; [apply nodup_names_ok; vm_compute; reflexivity|vm_compute; reflexivity].
-  - vm_compute; reflexivity.
-  - vm_compute; reflexivity.
-Qed.
-
-(* (8b) An incremental taken after a snapshot ships a manifest naming a snapshot that is in no archive
-   of its chain: every archive verifies, the restore succeeds, and the restored directory is not
-   recoverable (the manifest's snapshot is absent), let alone equal to the source. *)
-Theorem incremental_after_snapshot_refuted :
-  exists st rch bf tip d m o,
-    chain_ok rch bf d m /\ hd_error rch = Some tip /\ NoDup (map b_id rch) /\ store_sub st rch /\
-    o_dry o = false /\ snapshot_not_in_chain bf d m /\ ~ ancestor_missing st rch /\
-    exists t', restore_by_id st [] (b_id tip) o = (None, t') /\
-               restorable t' = false /\ recovery_view t' <> recovery_view (strip d).
-Proof.
-  exists [w_b2; w_b1], [w_b2; w_b1], w_b1, w_b2, w_d1, w_m1, opts_plain.
-  split; [exact w_chain_ok|]. split; [reflexivity|].
-  split; [vm_compute; repeat constructor; cbn; intuition discriminate|].
-  split; [intros b [E|[E|[]]]; subst; left; vm_compute; reflexivity|].
-  split; [reflexivity|].
-  split; [exists 70; split; [reflexivity|vm_compute; discriminate]|].
-  split; [intros [b [[E|[E|[]]] HN]]; subst; vm_compute in HN; discriminate|].
+  split; [vm_compute; reflexivity|]. split; [vm_compute; reflexivity|].
   eexists; split; [vm_compute; reflexivity|]. split; [vm_compute; reflexivity|vm_compute; discriminate].
 Qed.
 
-(* (8a) prune with the default policy: full backup and its incremental fall into one hourly bucket,
-   the newest (the incremental) is kept and its parent deleted; restoring the kept backup fails. *)
-Theorem prune_parent_refuted :
-  exists now p st rch bf tip d m o,
-    chain_ok rch bf d m /\ hd_error rch = Some tip /\ NoDup (map b_id st) /\
-    (forall b, In b rch -> find_b st (b_id b) = Some b) /\
-    In tip (prune_store now p st) /\
-    (exists pid, b_parent tip = Some pid /\ find_b (prune_store now p st) pid = None) /\
-    ancestor_missing (prune_store now p st) rch /\
-    restore_by_id (prune_store now p st) [] (b_id tip) o = (Some EParentNotFound, []).
+Lemma w_chain_ok : chain_ok w_sc [w_b2; w_b1] w_d1 w_m1.
 Proof.
-  exists 1000, default_policy, [w_b2; w_b1], [w_b2; w_b1], w_b1, w_b2, w_d1, w_m1, opts_plain.
-  split; [exact w_chain_ok|]. split; [reflexivity|].
-  split; [vm_compute; repeat constructor; cbn; intuition discriminate|].
-  split; [intros b [E|[E|[]]]; subst; vm_compute; reflexivity|].
-  split; [vm_compute; left; reflexivity|].
-  split; [exists 1; split; vm_compute; reflexivity|].
-  split; [exists w_b1; split; [right; left; reflexivity|vm_compute; reflexivity]|].
-  vm_compute; reflexivity.
+  eapply (co_incr w_sc [] w_d0 (mkMan None None [10] 1) w_b1 w_d1 w_m1 w_b2 [w_b1] 2 80 0).
+  - eapply (co_full w_sc w_d0 _ w_b1 1 60 0);
+      [apply wf_sdirb_ok; vm_compute; reflexivity|apply snaps_agreeb_ok; vm_compute; reflexivity|vm_compute; reflexivity].
+  - apply wf_sdirb_ok; vm_compute; reflexivity.
+  - apply snaps_agreeb_ok; vm_compute; reflexivity.
+  - apply evolvesb_ok; [apply nodup_names_ok; vm_compute; reflexivity|vm_compute; reflexivity].
+  - vm_compute; reflexivity.
+  - intros b [].
+  - vm_compute; reflexivity.
 Qed.
 
-(* Non-vacuity: a three-member chain (full, incremental after appends, incremental after a rotation
-   and further appends; no snapshot change) satisfies every premise of chain_restore_exact, lies outside
-   KnownC12, and restores to a recoverable directory with the source's view. *)
+(* CURRENT behaviour on the same input: the snapshot is shipped and the chain restores exactly. *)
+Example incremental_after_snapshot_now_exact :
+  create_incremental [w_b1] w_d1 1 2 80 0 = Ok w_b2 /\
+  restore_by_id [w_b1; w_b2] [] 2 opts_plain =
+    (None, [(FManifest, CMan w_m1); (FWal 10, CBlob 101); (FSnap 70, CBlob 200)]) /\
+  recovery_view (snd (restore_by_id [w_b1; w_b2] [] 2 opts_plain)) = recovery_view (strip w_d1) /\
+  recovery_view (strip w_d1) = Some (w_m1, Some (CBlob 200), [CBlob 101]).
+Proof. repeat split; vm_compute; reflexivity. Qed.
+
+(* OLD prune (default policy): full backup and its incremental in one hourly bucket; the newest was kept
+   and its parent deleted, so the kept backup could not be restored.  CURRENT prune keeps both. *)
+Example old_prune_deleted_parent :
+  prune_store_old 1000 default_policy [w_b2; w_b1] = [w_b2] /\
+  restore_by_id (prune_store_old 1000 default_policy [w_b2; w_b1]) [] 2 opts_plain = (Some EParentNotFound, []) /\
+  prune_store 1000 default_policy [w_b2; w_b1] = [w_b2; w_b1] /\
+  fst (restore_by_id (prune_store 1000 default_policy [w_b2; w_b1]) [] 2 opts_plain) = None.
+Proof. repeat split; vm_compute; reflexivity. Qed.
+
+(* the remaining class: an ancestor's metadata removed from the backup directory by hand *)
+Example ancestor_removed_by_hand :
+  KnownC12 [w_b2] [w_b2; w_b1] /\ restore_by_id [w_b2] [] 2 opts_plain = (Some EParentNotFound, []).
+Proof.
+  split; [exists w_b1; split; [right; left; reflexivity|vm_compute; reflexivity]|vm_compute; reflexivity].
+Qed.
+
+(* prune still deletes what no survivor needs: here the older chain (ids 1,2) goes, the newer full stays *)
+Definition p_b3 := mkBackup 3 None Full 100 [(FManifest, CMan w_m1)] true None None 0.
+Example prune_still_prunes :
+  prune_deleted 1000 default_policy (list_backups [w_b1; w_b2; p_b3]) = [2; 1].
+Proof. vm_compute; reflexivity. Qed.
+
+(* Non-vacuity: a four-member chain — full (snapshot 5), incremental after appends, incremental after a
+   NEW snapshot 7 and a rotation (ships snapshot 7), incremental after further appends (ships nothing:
+   the walk over the ancestors' metadata finds snapshot 7 two levels up) — satisfies every premise of
+   chain_restore_exact and restores to the source's view. *)
+Definition n_sc (s : N) : content := if s =? 5 then CBlob 300 else CBlob 301.
 Definition n_m0 := mkMan (Some 5) (Some 2) [10] 1.
 Definition n_d0 : sdir :=
   [(FManifest, (CMan n_m0, 40)); (FSnap 5, (CBlob 300, 30)); (FWal 10, (CBlob 100, 50))].
 Definition n_d1 : sdir :=
   [(FManifest, (CMan n_m0, 40)); (FSnap 5, (CBlob 300, 30)); (FWal 10, (CBlob 101, 65))].
-Definition n_m2 := mkMan (Some 5) (Some 2) [10; 20] 2.
+Definition n_m2 := mkMan (Some 7) (Some 9) [10; 20] 2.
 Definition n_d2 : sdir :=
-  [(FManifest, (CMan n_m2, 90)); (FSnap 5, (CBlob 300, 30)); (FWal 10, (CBlob 102, 85)); (FWal 20, (CBlob 400, 95))].
+  [(FManifest, (CMan n_m2, 90)); (FSnap 5, (CBlob 300, 30)); (FSnap 7, (CBlob 301, 88));
+   (FWal 10, (CBlob 102, 85)); (FWal 20, (CBlob 400, 95))].
+Definition n_d3 : sdir :=
+  [(FManifest, (CMan n_m2, 90)); (FSnap 7, (CBlob 301, 88)); (FWal 10, (CBlob 102, 85)); (FWal 20, (CBlob 401, 115))].
 Definition n_b1 := mkBackup 1 None Full 60
   [(FSnap 5, CBlob 300); (FManifest, CMan n_m0); (FWal 10, CBlob 100)] true (Some 10) (Some 5) 0.
 Definition n_b2 := mkBackup 2 (Some 1) Incremental 80 [(FManifest, CMan n_m0); (FWal 10, CBlob 101)] true (Some 10) None 0.
 Definition n_b3 := mkBackup 3 (Some 2) Incremental 100
-  [(FManifest, CMan n_m2); (FWal 10, CBlob 102); (FWal 20, CBlob 400)] true (Some 20) None 0.
+  [(FSnap 7, CBlob 301); (FManifest, CMan n_m2); (FWal 10, CBlob 102); (FWal 20, CBlob 400)] true (Some 20) (Some 7) 0.
+Definition n_b4 := mkBackup 4 (Some 3) Incremental 120 [(FManifest, CMan n_m2); (FWal 20, CBlob 401)] true (Some 20) None 0.
 
-Lemma n_chain_ok : chain_ok [n_b3; n_b2; n_b1] n_b1 n_d2 n_m2.
+Ltac premises :=
+  first [ apply wf_sdirb_ok; vm_compute; reflexivity
+        | apply snaps_agreeb_ok; vm_compute; reflexivity
+        | apply evolvesb_ok; [apply nodup_names_ok; vm_compute; reflexivity|vm_compute; reflexivity]
+        | vm_compute; reflexivity ].
+
+Lemma n_chain_ok : chain_ok n_sc [n_b4; n_b3; n_b2; n_b1] n_d3 n_m2.
 Proof.
-  eapply (co_incr [n_b1] n_b1 n_d1 n_m0 n_b2 n_d2 n_m2 n_b3 [n_b1; n_b2] 3 100 0).
-  - eapply (co_incr [] n_b1 n_d0 n_m0 n_b1 n_d1 n_m0 n_b2 [n_b1] 2 80 0).
-    + eapply (co_full n_d0 _ n_b1 1 60 0); [apply wf_sdirb_ok; vm_compute; reflexivity|vm_compute; reflexivity].
-    + apply wf_sdirb_ok; vm_compute; reflexivity.
-    + apply evolvesb_ok; [apply nodup_names_ok; vm_compute; reflexivity|vm_compute; reflexivity].
-    + vm_compute; reflexivity.
-    + vm_compute; reflexivity.
-  - apply wf_sdirb_ok; vm_compute; reflexivity.
-  - apply evolvesb_ok; [apply nodup_names_ok; vm_compute; reflexivity|vm_compute; reflexivity].
-  - vm_compute; reflexivity.
-  - vm_compute; reflexivity.
+  eapply (co_incr n_sc [n_b2; n_b1] n_d2 n_m2 n_b3 n_d3 n_m2 n_b4 [n_b1; n_b2; n_b3] 4 120 0).
+  - eapply (co_incr n_sc [n_b1] n_d1 n_m0 n_b2 n_d2 n_m2 n_b3 [n_b1; n_b2] 3 100 0).
+    + eapply (co_incr n_sc [] n_d0 n_m0 n_b1 n_d1 n_m0 n_b2 [n_b1] 2 80 0).
+      * eapply (co_full n_sc n_d0 _ n_b1 1 60 0); premises.
+      * premises.
+      * premises.
+      * premises.
+      * premises.
+      * intros b [].
+      * premises.
+    + premises.
+    + premises.
+    + premises.
+    + premises.
+    + intros b [E|[]]; subst; left; vm_compute; reflexivity.
+    + premises.
+  - premises.
+  - premises.
+  - premises.
+  - premises.
+  - intros b [E|[E|[]]]; subst; left; vm_compute; reflexivity.
+  - premises.
 Qed.
 
 Theorem chain_nonvacuous :
-  let st := [n_b1; n_b2; n_b3] in let rch := [n_b3; n_b2; n_b1] in
-  chain_ok rch n_b1 n_d2 n_m2 /\ NoDup (map b_id rch) /\ store_sub st rch /\
-  ~ KnownC12 st rch n_b1 n_d2 n_m2 /\
-  restore_by_id st [] 3 opts_plain =
-    (None, [(FSnap 5, CBlob 300); (FManifest, CMan n_m2); (FWal 10, CBlob 102); (FWal 20, CBlob 400)]) /\
-  recovery_view (snd (restore_by_id st [] 3 opts_plain)) = recovery_view (strip n_d2) /\
-  recovery_view (strip n_d2) = Some (n_m2, Some (CBlob 300), [CBlob 102; CBlob 400]).
+  let st := [n_b1; n_b2; n_b3; n_b4] in let rch := [n_b4; n_b3; n_b2; n_b1] in
+  chain_ok n_sc rch n_d3 n_m2 /\ NoDup (map b_id rch) /\ store_sub st rch /\ ~ KnownC12 st rch /\
+  restore_by_id st [] 4 opts_plain =
+    (None, [(FSnap 5, CBlob 300); (FManifest, CMan n_m2); (FWal 10, CBlob 102); (FSnap 7, CBlob 301); (FWal 20, CBlob 401)]) /\
+  recovery_view (snd (restore_by_id st [] 4 opts_plain)) = recovery_view (strip n_d3) /\
+  recovery_view (strip n_d3) = Some (n_m2, Some (CBlob 301), [CBlob 102; CBlob 401]) /\
+  In n_b4 (prune_store 1000 default_policy st) /\ prune_store 1000 default_policy st = st.
 Proof.
   cbn zeta. split; [exact n_chain_ok|].
   split; [vm_compute; repeat constructor; cbn; intuition discriminate|].
-  split; [intros b [E|[E|[E|[]]]]; subst; left; vm_compute; reflexivity|].
+  split; [intros b [E|[E|[E|[E|[]]]]]; subst; left; vm_compute; reflexivity|].
   split.
-  - intros [[s [ES HN]]|[b [[E|[E|[E|[]]]] HN]]].
-    + vm_compute in ES; inversion ES; subst s. apply HN; vm_compute; reflexivity.
-    + subst; vm_compute in HN; discriminate.
-    + subst; vm_compute in HN; discriminate.
-    + subst; vm_compute in HN; discriminate.
-  - split; [vm_compute; reflexivity|]. split; vm_compute; reflexivity.
-Qed.
-
-(* the property "pruning never removes a backup that a retained backup depends on", and its failure *)
-Definition prune_keeps_parents_stmt : Prop :=
-  forall now p st b pid, NoDup (map b_id st) -> In b (prune_store now p st) ->
-    b_parent b = Some pid -> find_b st pid <> None -> find_b (prune_store now p st) pid <> None.
-
-Theorem prune_keeps_parents_refuted : ~ prune_keeps_parents_stmt.
-Proof.
-  intro H. apply (H 1000 default_policy [w_b2; w_b1] w_b2 1).
-  - vm_compute; repeat constructor; cbn; intuition discriminate.
-  - vm_compute; left; reflexivity.
-  - reflexivity.
-  - vm_compute; discriminate.
-  - vm_compute; reflexivity.
+  - intros [b [[E|[E|[E|[E|[]]]]] HN]]; subst; vm_compute in HN; discriminate.
+  - repeat split; try (vm_compute; reflexivity). vm_compute; auto.
 Qed.
